@@ -115,6 +115,15 @@ pub fn classify_motion<K: Kit>(rig: &Rig<K>, a: &K::S, b: &K::S) -> (Motion, f64
         }
     }
     if !any_invalid {
+        // The dense ground truth has spacing L/64: a sliver of obstacle thinner than that can hide between
+        // two dense points and still be met by a planner's own check. The world is a pure predicate, so a
+        // REJECTED validity query (anywhere in this rig's log) lying on this very segment proves that the
+        // motion is not entirely valid - then nothing may be demanded of it.
+        let tau = on_seg_tau(d);
+        let seen_invalid = w.log.borrow().iter().any(|(_, s, ok)| !*ok && (sp.distance(a, s) + sp.distance(s, b) - d).abs() <= tau);
+        if seen_invalid {
+            return (Motion::Either, 0.0);
+        }
         (Motion::MustAccept, 0.0)
     } else if longest >= l {
         (Motion::MustReject, longest)
